@@ -52,10 +52,12 @@ package pot
 //@   assert AssertLevel:1 forall i :: in(i, ll.contributors) ==> (exists k :: 0 <= k && k < len(ll.levels) && ll.levels[k].Level == ll.contributors[i])
 //@   assert AssertLevel:1 forall k :: 0 <= k && k < len(ll.levels) ==> (exists i :: in(i, ll.contributors) && ll.contributors[i] == ll.levels[k].Level)
 //@   assert Slice:1 LEVELSOK(ll)
-//@   loop 1 invariant LEVELSOK(ll) && (forall k :: 0 <= k && k <= rangeindex ==> CONTRIBOK(ll, ll.levels[k]))
-//@   loop 2 invariant LEVELSOK(ll) && (forall k :: 0 <= k && k < rangeindex + 1 ==> CONTRIBOK(ll, ll.levels[k]))
-//@   loop 2 invariant forall a :: 0 <= a && a < len(pot.Contributors) ==> seen(pot.Contributors[a]) && ll.contributors[pot.Contributors[a]] >= pot.Level
-//@   loop 3 invariant LEVELSOK(ll) && (forall k :: 0 <= k && k < len(ll.levels) ==> CONTRIBOK(ll, ll.levels[k]))
+//@   -- (the loops write neither the level slice, nor Level.Level, nor the contributor map: LEVELSOK established after
+//@   --  the sort needs no restating; restating its forall-exists pairs only feeds a matching loop)
+//@   loop 1 invariant forall k :: 0 <= k && k <= rangeindex ==> CONTRIBOK(ll, ll.levels[k])
+//@   loop 2 invariant forall k :: 0 <= k && k < rangeindex + 1 ==> CONTRIBOK(ll, ll.levels[k])
+//@   loop 2 invariant CONTRIBOK(ll, pot)
+//@   loop 3 invariant forall k :: 0 <= k && k < len(ll.levels) ==> CONTRIBOK(ll, ll.levels[k])
 //@   loop 3 invariant prevLevel == ite(rangeindex < 0, 0, ll.levels[rangeindex].Level)
 //@   loop 3 invariant forall k :: 0 <= k && k <= rangeindex ==>
 //@      ll.levels[k].Wager == ll.levels[k].Level - ite(k == 0, 0, ll.levels[k - 1].Level)
